@@ -9,6 +9,8 @@ package doccomposer
 import (
 	"encoding/json"
 	"fmt"
+	"strconv"
+	"strings"
 
 	jsonpatch "github.com/evanphx/json-patch"
 
@@ -88,7 +90,9 @@ func applyJSON(doc document.Document, entry interface{}) (document.Document, err
 		return nil, err
 	}
 
-	jsonPatches, err := jsonpatch.DecodePatch(bytes)
+	var operations []json.RawMessage
+
+	err = json.Unmarshal(bytes, &operations)
 	if err != nil {
 		return nil, err
 	}
@@ -98,12 +102,119 @@ func applyJSON(doc document.Document, entry interface{}) (document.Document, err
 		return nil, err
 	}
 
-	docBytes, err = jsonPatches.Apply(docBytes)
+	for _, op := range operations {
+		docBytes, err = applyJSONOperation(docBytes, op)
+		if err != nil {
+			return nil, err
+		}
+	}
+
+	return document.FromBytes(docBytes)
+}
+
+// applyJSONOperation applies a single RFC 6902 operation to the document.
+//
+// Operations are applied one at a time and 'move'/'copy' are expressed as 'remove'/'add' of the value found at 'from':
+// the JSON patch library shares the node between source and target (so later operations change both, and copying a
+// value into itself never terminates) and overwrites instead of inserting if the target is an array element.
+// A panic inside the JSON patch library is returned as an error.
+func applyJSONOperation(docBytes []byte, op json.RawMessage) (result []byte, err error) {
+	defer func() {
+		if r := recover(); r != nil {
+			err = fmt.Errorf("failed to apply JSON patch operation: %v", r)
+		}
+	}()
+
+	var fields struct {
+		Op   string  `json:"op"`
+		From *string `json:"from"`
+		Path *string `json:"path"`
+	}
+
+	err = json.Unmarshal(op, &fields)
 	if err != nil {
 		return nil, err
 	}
 
-	return document.FromBytes(docBytes)
+	steps := []interface{}{op}
+
+	if fields.Op == "move" || fields.Op == "copy" {
+		if fields.From == nil || fields.Path == nil {
+			return nil, fmt.Errorf("jsonpatch %s operation requires from and path", fields.Op)
+		}
+
+		value, e := getJSONPointerValue(docBytes, *fields.From)
+		if e != nil {
+			return nil, fmt.Errorf("jsonpatch %s operation does not apply: %w", fields.Op, e)
+		}
+
+		steps = []interface{}{map[string]interface{}{"op": "add", "path": *fields.Path, "value": value}}
+
+		if fields.Op == "move" {
+			if strings.HasPrefix(*fields.Path, *fields.From+"/") {
+				return nil, fmt.Errorf("jsonpatch move operation does not apply: cannot move '%s' into its own child", *fields.From)
+			}
+
+			steps = append([]interface{}{map[string]interface{}{"op": "remove", "path": *fields.From}}, steps...)
+		}
+	}
+
+	stepsBytes, err := json.Marshal(steps)
+	if err != nil {
+		return nil, err
+	}
+
+	jsonPatch, err := jsonpatch.DecodePatch(stepsBytes)
+	if err != nil {
+		return nil, err
+	}
+
+	return jsonPatch.Apply(docBytes)
+}
+
+// getJSONPointerValue returns the value that the JSON pointer (RFC 6901) refers to.
+func getJSONPointerValue(docBytes []byte, pointer string) (json.RawMessage, error) {
+	var current interface{}
+
+	decoder := json.NewDecoder(strings.NewReader(string(docBytes)))
+	decoder.UseNumber()
+
+	if err := decoder.Decode(&current); err != nil {
+		return nil, err
+	}
+
+	if pointer != "" {
+		if !strings.HasPrefix(pointer, "/") {
+			return nil, fmt.Errorf("invalid JSON pointer '%s'", pointer)
+		}
+
+		unescape := strings.NewReplacer("~1", "/", "~0", "~")
+
+		for _, token := range strings.Split(pointer[1:], "/") {
+			token = unescape.Replace(token)
+
+			switch node := current.(type) {
+			case map[string]interface{}:
+				value, ok := node[token]
+				if !ok {
+					return nil, fmt.Errorf("missing value at '%s'", pointer)
+				}
+
+				current = value
+			case []interface{}:
+				index, err := strconv.Atoi(token)
+				if err != nil || index < 0 || index >= len(node) || strconv.Itoa(index) != token {
+					return nil, fmt.Errorf("invalid array index at '%s'", pointer)
+				}
+
+				current = node[index]
+			default:
+				return nil, fmt.Errorf("missing value at '%s'", pointer)
+			}
+		}
+	}
+
+	return json.Marshal(current)
 }
 
 func applyRecover(replaceDoc interface{}) (document.Document, error) {
